@@ -189,6 +189,9 @@ func checkC02(c *Ctx) {
 	c.Rule("C02-R15", "which parsers the collect loop tries depends on the terminal's description and on the scan (nothing pending / expiry) only, never on the modes switched on at the moment; the focus parser, which alone holds back a lone ESC on a terminal without ESC-introduced keys, is tried on every terminal")
 	c.Expect("C02-R15", 6)
 	checkCollectGates(c, p, "C02-R15", nil)
+	c.Rule("C02-R17", "a pending Alt prefix outlives the scan that found it: the flag is a field of the screen, cleared only where it is applied to a key (a scan that ends waiting for more input must not forget it: ESC ESC | [ A is Alt+Up however it is chunked; = C03-R6)")
+	c.Expect("C02-R17", 3)
+	c.asRule("C03-R6", "C02-R17", func() { c03AltPrefix(c, p) })
 	c.Rule("C02-R16", "the rune parser offers the decoder growing prefixes of the buffer, so that what it consumes is exactly the character it reports (one pass over everything buffered decodes as many characters as fit the output, reports the first and drops the rest: which keys arrive then depends on where the reads ended)")
 	c.Expect("C02-R16", 1)
 	if pr := p.Fn("tcell:(*tScreen).parseRune"); pr != nil {
